@@ -2240,21 +2240,27 @@ sexp sexp_apply (sexp ctx, sexp proc, sexp args) {
     _ARG1 = SEXP_VOID;
     break;
   case SEXP_OP_WRITE_STRING:
-    if (sexp_stringp(_ARG1))
+    j = 0;                      /* where the text starts in tmp1 */
+    if (sexp_stringp(_ARG1)) {
 #if SEXP_USE_PACKED_STRINGS
       tmp1 = _ARG1;
+      k = sexp_bytes_length(tmp1);
 #else
+      /* a string can be a slice of its bytes (utf8->string!) */
       tmp1 = sexp_string_bytes(_ARG1);
+      j = sexp_string_offset(_ARG1);
+      k = sexp_string_size(_ARG1);
 #endif
-    else if (sexp_bytesp(_ARG1))
+    } else if (sexp_bytesp(_ARG1)) {
       tmp1 = _ARG1;
-    else
+      k = sexp_bytes_length(tmp1);
+    } else
       sexp_raise("write-string: not a string or bytes", sexp_list1(ctx, _ARG1));
     if (_ARG2 == SEXP_TRUE)
-      _ARG2 = sexp_make_fixnum(sexp_bytes_length(tmp1));
+      _ARG2 = sexp_make_fixnum(k);
     else if (! sexp_fixnump(_ARG2))
       sexp_raise("write-string: not an integer", sexp_list1(ctx, _ARG2));
-    if (sexp_unbox_fixnum(_ARG2) < 0 || sexp_unbox_fixnum(_ARG2) > (sexp_sint_t)sexp_bytes_length(tmp1))
+    if (sexp_unbox_fixnum(_ARG2) < 0 || sexp_unbox_fixnum(_ARG2) > k)
       sexp_raise("write-string: not a valid string count", sexp_list2(ctx, tmp1, _ARG2));
     if (! sexp_oportp(_ARG3))
       sexp_raise("write-string: not an output-port", sexp_list1(ctx, _ARG3));
@@ -2264,13 +2270,13 @@ sexp sexp_apply (sexp ctx, sexp proc, sexp args) {
 #if SEXP_USE_GREEN_THREADS
     errno = 0;
 #endif
-    i = sexp_write_string_n(ctx, sexp_bytes_data(tmp1), sexp_unbox_fixnum(_ARG2), _ARG3);
+    i = sexp_write_string_n(ctx, sexp_bytes_data(tmp1) + j, sexp_unbox_fixnum(_ARG2), _ARG3);
 #if SEXP_USE_GREEN_THREADS
     if (i < sexp_unbox_fixnum(_ARG2) && errno == EAGAIN) {
       if (sexp_port_stream(_ARG3)) clearerr(sexp_port_stream(_ARG3));
       /* modify stack in-place so we continue where we left off next time */
       if (i > 0) {
-        _ARG1 = sexp_subbytes(ctx, tmp1, sexp_make_fixnum(i), SEXP_FALSE);
+        _ARG1 = sexp_subbytes(ctx, tmp1, sexp_make_fixnum(j + i), SEXP_FALSE);
         _ARG2 = sexp_make_fixnum(sexp_unbox_fixnum(_ARG2) - i);
       }
       /* yield if threads are enabled (otherwise busy loop) */
